@@ -28,7 +28,7 @@ import numpy
 
 from diffpy.structure import Structure
 from diffpy.structure.parsers import StructureParser
-from diffpy.structure.structureerrors import StructureFormatError
+from diffpy.structure.structureerrors import LatticeError, StructureFormatError
 from diffpy.structure.utils import isfloat
 
 # Constants ------------------------------------------------------------------
@@ -282,7 +282,7 @@ class P_xcfg(StructureParser):
             if len(stru) != p_natoms:
                 emsg = "expected %d atoms, read %d" % (p_natoms, len(stru))
                 raise StructureFormatError(emsg)
-        except (ValueError, IndexError):
+        except (ValueError, IndexError, ZeroDivisionError, LatticeError):
             emsg = "%d: file is not in XCFG format" % p_nl
             exc_type, exc_value, exc_traceback = sys.exc_info()
             e = StructureFormatError(emsg)
